@@ -1,4 +1,6 @@
 """C09 - data from other parties never crashes the receiver."""
+import os
+
 from .. import panic
 from .. import query as Q
 from .common import S
@@ -84,6 +86,97 @@ def run_entries(ctx, rule, entries, usize_bits=64, tag=""):
     return total, dis
 
 
+def clippy_crossref(ctx, rule):
+    """thorough: independent inventory.  Every site that clippy's restriction lints (unwrap_used, expect_used,
+    indexing_slicing, arithmetic_side_effects, panic) report inside a function reachable from an entry must have been
+    *considered* by the engine at that line: an Assert terminator, a diverging call, a modelled partial call with a
+    recorded precondition, or a modelled total algebra operation.  A clippy site the engine did not look at would be
+    a hole in the inventory -> fail closed."""
+    import json, os, shutil, subprocess
+    from .. import extract
+    work = os.path.join(extract.WORK, "clippy-%d" % os.getpid())
+    env = dict(os.environ, CARGO_NET_OFFLINE="true", CARGO_TARGET_DIR=work)
+    env.pop("RUSTC_WORKSPACE_WRAPPER", None)
+    cmd = ["cargo", "+nightly", "clippy", "--offline", "--workspace", "--lib", "-p", "star-test-utils", "--message-format=json", "--",
+           "-Aclippy::all", "-Wclippy::unwrap_used", "-Wclippy::expect_used", "-Wclippy::indexing_slicing",
+           "-Wclippy::arithmetic_side_effects", "-Wclippy::panic"]
+    p = subprocess.run(cmd, cwd=extract.REPO, env=env, stdout=subprocess.PIPE, stderr=subprocess.DEVNULL, text=True)
+    shutil.rmtree(work, ignore_errors=True)
+    sites = []
+    for line in p.stdout.splitlines():
+        try:
+            d = json.loads(line)
+        except ValueError:
+            continue
+        if d.get("reason") != "compiler-message":
+            continue
+        m = d["message"]
+        code = (m.get("code") or {}).get("code") or ""
+        if not code.startswith("clippy::"):
+            continue
+        for sp in m["spans"]:
+            if sp["is_primary"]:
+                sites.append((sp["file_name"], sp["line_start"], sp["line_end"], code))
+    if p.returncode != 0 or not sites:
+        ctx.add(rule, "clippy-run", False, "clippy cross-reference could not be produced (exit %d, %d sites)" % (p.returncode, len(sites)), "")
+        return
+    # engine side: considered lines per function, over all entry analyses
+    considered = {}
+    reach = set()
+    executed = set()
+    for root, untrusted, cfg in ENTRIES:
+        eng, ret, st, fr = ctx.root(root, cfg)
+        executed |= eng.executed
+        for ev in eng.events.values():
+            if ev["kind"] == "ret":
+                continue
+            reach.add(ev["fn"])
+            ok = ev["kind"] == "assert" or ev.get("diverges") or ev.get("pre") or \
+                (ev.get("model") or "").startswith(("m_alg", "m_unwrap", "m_ct_unwrap", "m_index", "m_scalar", "m_int_bitop", "m_fp_")) or \
+                ev.get("inlined")
+            if ok:
+                f, ln = ev["at"].rsplit(":", 1)
+                considered.setdefault(ev["fn"], set()).add((f, int(ln)))
+    F = ctx.F("A")
+    fns = [f for f in F.fns.values() if f.name in reach and f.end]
+    holes = []
+    pruned = []
+    matched = 0
+    for (file, l0, l1, code) in sorted(sites):
+        owners = [f for f in fns if f.loc.rsplit(":", 1)[0] == file and int(f.loc.rsplit(":", 1)[1]) <= l0 <= f.end]
+        if not owners:
+            continue     # not in a function reachable from a receiving entry point
+        # innermost owner(s): closures are nested in their parent's range
+        hit = False
+        for f in owners:
+            for (cf, cl) in considered.get(f.name, ()):
+                if cf == file and l0 <= cl <= l1:
+                    hit = True
+        if not hit:
+            # the site sits only in blocks that no entry's analysis ever executed: infeasible under the entries'
+            # arguments (constant propagation through the inlined call context), e.g. `if out.len() != 32 { panic!() }`
+            # behind a fixed 32-byte buffer
+            blocks = []
+            for f in owners:
+                for bi, b in enumerate(f.blocks):
+                    lines = [x["at"] for x in b["s"]] + [b["t"].get("at", "")]
+                    if any(a.rsplit(":", 1)[0] == file and l0 <= int(a.rsplit(":", 1)[1]) <= l1 for a in lines if a):
+                        blocks.append((f.name, bi))
+            if blocks and not any(x in executed for x in blocks):
+                hit = True
+                pruned.append("%s:%d %s" % (file, l0, code))
+        if hit:
+            matched += 1
+        else:
+            holes.append("%s:%d %s (in %s)" % (file, l0, code, owners[-1].name))
+    ctx.extra["clippy_crossref"] = {"clippy_sites": len(sites), "in_entry_reachable_functions": matched + len(holes),
+                                    "matched_by_inventory": matched - len(pruned), "unreachable_in_context": pruned, "holes": holes}
+    ctx.add(rule, "clippy-sites-covered-by-inventory", not holes,
+            "clippy reports potential failure sites in entry-reachable functions that the engine's inventory did not consider: %s" % holes[:6],
+            holes[0] if holes else "", sample={"clippy_sites": len(sites), "in_reachable_functions": matched + len(holes), "matched": matched,
+                    "unreachable_in_context": pruned})
+
+
 def run(ctx):
     total, dis = run_entries(ctx, "C09.P", ENTRIES, 64)
     ctx.floor("C09.P.ENTRY", 15)
@@ -97,3 +190,5 @@ def run(ctx):
                ("star_sharks::<share_ff::Share as std::convert::TryFrom<&[u8]>>::try_from", {"s"}, "C"),
                ("star_sharks::Sharks::recover", {"shares"}, "C")]
         run_entries(ctx, "C09.PB", ext, 64, tag="@cfgBC")
+        if not os.environ.get("SV_NO_DETERMINISM_CHECK"):
+            clippy_crossref(ctx, "C09.X")
